@@ -247,7 +247,8 @@ func genGates(rt *rapid.T) GateScript {
 	case s.Modern:
 		s.PV = ptr(modern)
 		if broken["metaver"] {
-			s.MetaVer = "2099-01-01"
+			// a version the SDK does not know, or a legacy one (legal in _meta, then mirrored like any other)
+			s.MetaVer = rapid.SampledFrom([]string{"2099-01-01", "2099-01-01", "2025-03-26", "2025-03-26", "2025-06-18", "2025-11-25", "2024-11-05"}).Draw(rt, "metaver")
 			s.PV = ptr(s.MetaVer)
 		}
 		if broken["pv"] {
